@@ -2,7 +2,7 @@
 from trkgen import *
 
 ID = "C03"
-THEOREM_MODULES = ["SimVerif.Props.C03", "SimVerif.Props.C03b", "SimVerif.Props.C03c", "SimVerif.Tie.Epoch", "SimVerif.Tie.AutoWaste", "SimVerif.Props.C03s"]
+THEOREM_MODULES = ["SimVerif.Props.C03", "SimVerif.Props.C03b", "SimVerif.Props.C03c", "SimVerif.Tie.Epoch", "SimVerif.Tie.AutoWaste", "SimVerif.Props.C03s", "SimVerif.Tie.Gc"]
 THEOREM_MODULE = "SimVerif.Props.C03"
 NONTRIVIAL_FLAGS = {"expired-uncollected", "expired-uncollected-in-scene", "handed-out", "gc-runs", "clear-nonempty", "skip", "idle-nonempty", "multi-scene-store"}
 RULE = ("random interleavings of predict (possibly empty), skip_epochs, wasted, idle_tracks, clear_wasted, set_auto_waste (0,1,3,100), epoch over 1..3 scenes, max_idle 0..3, shards 1..4, Sort and BatchSort (IoU / Mahalanobis); "
